@@ -1031,38 +1031,93 @@ func runC09(c *Ctx) {
 		if fn.Decl.Recv == nil {
 			self = "param#1"
 		}
-		// identity test: target.ID() != self.ID() true, or == false, or target != self
+		// identity test: target.ID() != self.ID() true, or == false, or target != self.
+		// guarded(g, at, target): when `at` executes, target is not the receiver. A target
+		// produced by an invoked literal (an inlined "pick the next hop" helper) is guarded
+		// if each of the literal's returns is.
+		var guarded func(g *Fn, at ast.Node, target ast.Expr, depth int) bool
+		guarded = func(g *Fn, at ast.Node, target ast.Expr, depth int) bool {
+			tpv := g.Prov(target)
+			maySelf := false
+			for _, alt := range splitAlts(tpv) {
+				if selfSources[alt] {
+					maySelf = true
+				}
+			}
+			if !maySelf {
+				return true
+			}
+			if depth > 3 {
+				return false
+			}
+			litReturns := func(call *ast.CallExpr, idx int) (bool, bool) {
+				lit := g.litOfCallee(call)
+				if lit == nil {
+					return false, false
+				}
+				h := g.enclosing(lit).Closure(lit)
+				all := true
+				for _, r := range h.Returns() {
+					if idx >= len(r.Results) || !guarded(h, r, r.Results[idx], depth+1) {
+						all = false
+					}
+				}
+				return all, true
+			}
+			if tc, ok := ast.Unparen(target).(*ast.CallExpr); ok {
+				if res, isLit := litReturns(tc, 0); isLit {
+					return res
+				}
+			}
+			want := types.ExprString(ast.Unparen(target))
+			identity := func(e ast.Expr, truth bool) bool {
+				be, ok := e.(*ast.BinaryExpr)
+				if !ok || (be.Op != token.EQL && be.Op != token.NEQ) {
+					return false
+				}
+				if (be.Op == token.NEQ) != truth {
+					return false
+				}
+				l, r := types.ExprString(be.X), types.ExprString(be.Y)
+				lp, rp := g.Prov(be.X), g.Prov(be.Y)
+				// the target by its spelling, or a local that holds the target's ID()
+				isT := func(s, p string) bool {
+					return s == want+".ID()" || s == want || p == tpv+".ID()" && !strings.Contains(tpv, "|")
+				}
+				isS := func(p string) bool { return p == self+".ID()" || p == self }
+				return (isT(l, lp) && isS(rp)) || (isT(r, rp) && isS(lp))
+			}
+			if v := g.varOf(target); v != nil {
+				defs := g.defsOf(v)
+				allLit := len(defs) > 0
+				res := true
+				for _, d := range defs {
+					dc, isCall := ast.Unparen(d.rhs).(*ast.CallExpr)
+					if !isCall {
+						allLit = false
+						break
+					}
+					r, isLit := litReturns(dc, d.idx)
+					if !isLit {
+						allLit = false
+						break
+					}
+					res = res && r
+				}
+				if allLit {
+					return res
+				}
+				bad, okDefs := g.CutFromDefs(at, v, func(p string) bool { return selfSources[p] }, func(at atom) bool {
+					return at.tag == nil && identity(at.e, at.truth)
+				})
+				if okDefs {
+					return bad == nil
+				}
+			}
+			return g.FactsAt(at).Cmp(func(e, tag ast.Expr, truth bool, fa *Fact) bool { return tag == nil && identity(e, truth) })
+		}
 		want := types.ExprString(ast.Unparen(target))
-		identity := func(e ast.Expr, truth bool) bool {
-			be, ok := e.(*ast.BinaryExpr)
-			if !ok || (be.Op != token.EQL && be.Op != token.NEQ) {
-				return false
-			}
-			if (be.Op == token.NEQ) != truth {
-				return false
-			}
-			l, r := types.ExprString(be.X), types.ExprString(be.Y)
-			lp, rp := fn.Prov(be.X), fn.Prov(be.Y)
-			// the target by its spelling, or a local that holds the target's ID()
-			isT := func(s, p string) bool {
-				return s == want+".ID()" || s == want || p == pv+".ID()" && !strings.Contains(pv, "|")
-			}
-			isS := func(p string) bool { return p == self+".ID()" || p == self }
-			return (isT(l, lp) && isS(rp)) || (isT(r, rp) && isS(lp))
-		}
-		ok := false
-		decided := false
-		if v := fn.varOf(target); v != nil {
-			bad, okDefs := fn.CutFromDefs(call, v, func(p string) bool { return selfSources[p] }, func(at atom) bool {
-				return at.tag == nil && identity(at.e, at.truth)
-			})
-			if okDefs {
-				decided, ok = true, bad == nil
-			}
-		}
-		if !decided {
-			ok = fn.FactsAt(call).Cmp(func(e, tag ast.Expr, truth bool, fa *Fact) bool { return tag == nil && identity(e, truth) })
-		}
+		ok := guarded(fn, call, target, 0)
 		c.Ob("self-forward", fmt.Sprintf("%s#%s", fn.Name, what), call.Pos(), ok,
 			fmt.Sprintf("the request is re-issued with unchanged arguments to %s = %s, which can be the receiver itself; without an identity test (target != self) on every path this recurses without bound", want, pv))
 	}
@@ -1107,37 +1162,76 @@ func runC09(c *Ctx) {
 	if loop == nil {
 		c.Failf("ListKeys: ring-walk loop not found (undecided)")
 	}
+	// decided from path facts at the loop's exits, so `break`, an early `return list, nil` and a
+	// walk moved into an (inlined) helper are alike. The cursor is the variable that receives
+	// the FindSuccessor result inside the loop.
 	backAtSelf, repeat, marks := false, false, false
+	lf := lk.enclosing(loop)
+	var cursor *types.Var
 	ast.Inspect(loop.Body, func(n ast.Node) bool {
-		switch x := n.(type) {
-		case *ast.IfStmt:
-			s := types.ExprString(x.Cond)
-			if be, ok := x.Cond.(*ast.BinaryExpr); ok && be.Op == token.EQL && lk.Prov(be.Y) == pSelf && strings.HasSuffix(types.ExprString(be.X), ".ID()") {
-				for _, st := range x.Body.List {
-					if br, ok := st.(*ast.BranchStmt); ok && br.Tok == token.BREAK {
-						backAtSelf = true
-					}
-				}
-			}
-			if ix, ok := x.Cond.(*ast.IndexExpr); ok && strings.HasSuffix(types.ExprString(ix.Index), ".ID()") {
-				for _, st := range x.Body.List {
-					if _, ok := st.(*ast.ReturnStmt); ok {
-						repeat = true
-					}
-				}
-			}
-			_ = s
-		case *ast.AssignStmt:
-			if len(x.Lhs) == 1 {
-				if ix, ok := x.Lhs[0].(*ast.IndexExpr); ok && strings.HasSuffix(types.ExprString(ix.Index), ".ID()") {
-					if v, _ := lk.ConstVal(x.Rhs[0]); v == "true" {
-						marks = true
-					}
+		if as, ok := n.(*ast.AssignStmt); ok && len(as.Rhs) == 1 && len(as.Lhs) == 2 {
+			if call, ok := ast.Unparen(as.Rhs[0]).(*ast.CallExpr); ok {
+				if se, ok := call.Fun.(*ast.SelectorExpr); ok && se.Sel.Name == "FindSuccessor" {
+					cursor = lf.varOf(as.Lhs[0])
 				}
 			}
 		}
 		return true
 	})
+	isCursorID := func(e ast.Expr) bool {
+		call, ok := ast.Unparen(e).(*ast.CallExpr)
+		if !ok || len(call.Args) != 0 {
+			return false
+		}
+		se, ok := call.Fun.(*ast.SelectorExpr)
+		return ok && se.Sel.Name == "ID" && cursor != nil && lf.varOf(se.X) == cursor
+	}
+	atSelf := func(fs *FactSet) bool {
+		return fs.Equal(func(x, y ast.Expr) bool { return isCursorID(x) && lf.Prov(y) == pSelf })
+	}
+	var seenMap *types.Var
+	visited := func(fs *FactSet) bool {
+		return fs.Cmp(func(e, tag ast.Expr, truth bool, fa *Fact) bool {
+			ix, ok := ast.Unparen(e).(*ast.IndexExpr)
+			if !ok || tag != nil || !truth || !isCursorID(ix.Index) {
+				return false
+			}
+			seenMap = lf.varOf(ix.X)
+			return seenMap != nil
+		})
+	}
+	ast.Inspect(loop.Body, func(n ast.Node) bool {
+		switch x := n.(type) {
+		case *ast.FuncLit:
+			return false
+		case *ast.BranchStmt:
+			if x.Tok == token.BREAK && lf.FactsAt(x).Unreachable == false && atSelf(lf.FactsAt(x)) {
+				backAtSelf = true
+			}
+		case *ast.ReturnStmt:
+			if len(x.Results) == 0 {
+				return true
+			}
+			last := x.Results[len(x.Results)-1]
+			fs := lf.FactsAt(x)
+			if isNilIdent(lf.Info, last) && atSelf(fs) {
+				backAtSelf = true
+			}
+			if !isNilIdent(lf.Info, last) && lf.varOf(last) == nil && visited(fs) {
+				repeat = true // a constructed error under "this node was visited before"
+			}
+		}
+		return true
+	})
+	for _, in := range lf.seenInserts(loop.Body) {
+		if seenMap != nil && in.m == seenMap {
+			if as, ok := in.at.(*ast.AssignStmt); ok && len(as.Lhs) == 1 {
+				if ix, ok := ast.Unparen(as.Lhs[0]).(*ast.IndexExpr); ok && isCursorID(ix.Index) {
+					marks = true
+				}
+			}
+		}
+	}
 	c.Ob("ring-walk", "ListKeys#exit-back-at-self", loop.Pos(), backAtSelf, "the walk stops when it is back at the receiver")
 	c.Ob("ring-walk", "ListKeys#exit-on-repeat", loop.Pos(), repeat && marks, "a node seen twice ends the walk with an error (every visited node is marked)")
 	// progress: each step asks for successor of next.ID()+1
